@@ -188,9 +188,17 @@ func (c *opCtx) ret() {
 	}
 }
 
+// Operand roles for scopeOrSemantics.
+const (
+	roleExecScope = "execution scope"
+	roleMemScope  = "memory scope"
+	roleSemantics = "memory semantics"
+)
+
 // scopeOrSemantics: with the Shader capability scope and memory-semantics ids must be
-// constant instructions of 32-bit integer type.
-func (c *opCtx) scopeOrSemantics(id uint32, what string) {
+// constant instructions of 32-bit integer type. For plain constants the value is checked
+// against the Vulkan environment rules ("Scope" and "Memory Semantics" validation rules).
+func (c *opCtx) scopeOrSemantics(id uint32, role string) {
 	m := c.m
 	d := m.defs[id]
 	if d == nil {
@@ -198,11 +206,53 @@ func (c *opCtx) scopeOrSemantics(id uint32, what string) {
 	}
 	t := m.types[d.Type]
 	if t == nil || t.Kind != tkInt || t.Width != 32 {
-		c.bad("%s operand %%%d has type %s, expected a 32-bit integer", what, id, m.typeName(d.Type))
+		c.bad("%s operand %%%d has type %s, expected a 32-bit integer", role, id, m.typeName(d.Type))
 		return
 	}
 	if !isConstOp(d.Op) {
-		c.bad("%s operand %%%d is defined by %s, must be a constant instruction", what, id, d.name())
+		c.bad("%s operand %%%d is defined by %s, must be a constant instruction", role, id, d.name())
+		return
+	}
+	v64, ok := m.constValue(id)
+	if !ok {
+		return // specialization constant
+	}
+	v := uint32(v64)
+	switch role {
+	case roleExecScope:
+		if v != 2 && v != 3 {
+			c.bad("execution scope %%%d = %d; Vulkan allows only Workgroup (2) and Subgroup (3)", id, v)
+		}
+	case roleMemScope:
+		if v == 0 || v > 6 {
+			c.bad("memory scope %%%d = %d; Vulkan allows Device (1), Workgroup (2), Subgroup (3), Invocation (4), QueueFamily (5), ShaderCallKHR (6)", id, v)
+		}
+	case roleSemantics:
+		const known = 0x2 | 0x4 | 0x8 | 0x10 | 0x40 | 0x80 | 0x100 | 0x200 | 0x400 | 0x800 | 0x1000 | 0x2000 | 0x4000 | 0x8000
+		if v&^known != 0 {
+			c.bad("memory semantics %%%d = 0x%x has unknown bits 0x%x", id, v, v&^uint32(known))
+		}
+		order := v & 0x1e
+		if order&(order-1) != 0 {
+			c.bad("memory semantics %%%d = 0x%x sets more than one of Acquire/Release/AcquireRelease/SequentiallyConsistent", id, v)
+		}
+		if order&0x10 != 0 {
+			c.bad("memory semantics %%%d = 0x%x uses SequentiallyConsistent, which Vulkan does not allow", id, v)
+		}
+		switch c.in.Op {
+		case opAtomicLoad:
+			if order&(0x4|0x8) != 0 {
+				c.bad("OpAtomicLoad memory semantics %%%d = 0x%x must not be Release or AcquireRelease", id, v)
+			}
+		case opAtomicStore:
+			if order&(0x2|0x8) != 0 {
+				c.bad("OpAtomicStore memory semantics %%%d = 0x%x must not be Acquire or AcquireRelease", id, v)
+			}
+		case opMemoryBarrier:
+			if order == 0 || v&0x1fc0 == 0 {
+				c.bad("OpMemoryBarrier memory semantics %%%d = 0x%x needs an ordering bit and at least one storage-class bit", id, v)
+			}
+		}
 	}
 }
 
@@ -244,15 +294,15 @@ func (c *opCtx) atomic() {
 		return
 	}
 	ops := in.idOps()
-	c.scopeOrSemantics(ops[1].ID, "scope")
-	c.scopeOrSemantics(ops[2].ID, "semantics")
+	c.scopeOrSemantics(ops[1].ID, roleMemScope)
+	c.scopeOrSemantics(ops[2].ID, roleSemantics)
 	valueIdx := -1
 	switch in.Op {
 	case opAtomicLoad, opAtomicIIncrement, opAtomicIDecrement:
 	case opAtomicStore:
 		valueIdx = 3
 	case opAtomicCompareExchang:
-		c.scopeOrSemantics(ops[3].ID, "unequal semantics")
+		c.scopeOrSemantics(ops[3].ID, roleSemantics)
 		valueIdx = 4
 		if ct := m.typeIDOf(ops[5].ID); ct != 0 && ct != pe.ID {
 			c.bad("comparator %%%d type %s differs from the pointee type %s", ops[5].ID, m.typeName(ct), m.typeName(pe.ID))
@@ -451,6 +501,14 @@ func (c *opCtx) image() {
 			c.bad("image operand %%%d has type %s, expected a pointer to an OpTypeImage", first, m.typeName(ft.ID))
 		} else if rt.Kind == tkPointer && rt.Elem != m.types[ft.Elem].Elem {
 			c.bad("result pointee %s differs from the image's sampled type %s", m.typeName(rt.Elem), m.typeName(m.types[ft.Elem].Elem))
+		}
+		for k, what := range []string{"", "coordinate", "sample"} {
+			if k == 0 {
+				continue
+			}
+			if s := m.shapeOf(in.opID(k)); m.typeOf(in.opID(k)) != nil && (!s.ok || s.kind != tkInt || (k == 2 && s.vector)) {
+				c.bad("%s operand %%%d has type %s, expected an integer %s", what, in.opID(k), m.typeName(m.typeIDOf(in.opID(k))), map[int]string{1: "scalar or vector", 2: "scalar"}[k])
+			}
 		}
 	}
 }
